@@ -11,6 +11,7 @@
 #define CHAISCRIPT_BOXED_NUMERIC_HPP_
 
 #include <cstdint>
+#include <limits>
 #include <sstream>
 #include <string>
 
@@ -79,6 +80,21 @@ namespace chaiscript {
       if constexpr (!std::is_floating_point<T>::value) {
         if (t == 0) {
           throw chaiscript::exception::arithmetic_error("divide by zero");
+        }
+      }
+#endif
+    }
+
+    /// Signed integer division overflows (and traps on common hardware) for min() / -1
+    template<typename LHS, typename RHS>
+    constexpr static inline void check_divide_overflow([[maybe_unused]] LHS t_lhs, [[maybe_unused]] RHS t_rhs) {
+#ifndef CHAISCRIPT_NO_PROTECT_DIVIDEBYZERO
+      if constexpr (!std::is_floating_point<LHS>::value && !std::is_floating_point<RHS>::value) {
+        using Common = decltype(t_lhs / t_rhs);
+        if constexpr (std::is_signed<Common>::value) {
+          if (static_cast<Common>(t_rhs) == static_cast<Common>(-1) && static_cast<Common>(t_lhs) == std::numeric_limits<Common>::min()) {
+            throw chaiscript::exception::arithmetic_error("integer overflow in division");
+          }
         }
       }
 #endif
@@ -166,6 +182,7 @@ namespace chaiscript {
           return const_var(c_lhs + c_rhs);
         case Operators::Opers::quotient:
           check_divide_by_zero(c_rhs);
+          check_divide_overflow(c_lhs, c_rhs);
           return const_var(c_lhs / c_rhs);
         case Operators::Opers::product:
           return const_var(c_lhs * c_rhs);
@@ -183,6 +200,7 @@ namespace chaiscript {
             return const_var(c_lhs >> c_rhs);
           case Operators::Opers::remainder:
             check_divide_by_zero(c_rhs);
+            check_divide_overflow(c_lhs, c_rhs);
             return const_var(c_lhs % c_rhs);
           case Operators::Opers::bitwise_and:
             return const_var(c_lhs & c_rhs);
@@ -208,6 +226,7 @@ namespace chaiscript {
             return t_bv;
           case Operators::Opers::assign_quotient:
             check_divide_by_zero(c_rhs);
+            check_divide_overflow(*t_lhs, c_rhs);
             *t_lhs /= c_rhs;
             return t_bv;
           case Operators::Opers::assign_difference:
@@ -233,6 +252,7 @@ namespace chaiscript {
               return t_bv;
             case Operators::Opers::assign_remainder:
               check_divide_by_zero(c_rhs);
+              check_divide_overflow(*t_lhs, c_rhs);
               *t_lhs %= c_rhs;
               return t_bv;
             case Operators::Opers::assign_bitwise_xor:
